@@ -3360,10 +3360,33 @@ func (p *Posix) removeParents(bucket, object string) {
 	}
 }
 
+// hasDotSegment reports whether the key has a "." or ".." path segment
+func hasDotSegment(key string) bool {
+	for _, seg := range strings.Split(key, "/") {
+		if seg == "." || seg == ".." {
+			return true
+		}
+	}
+	return false
+}
+
 func (p *Posix) DeleteObjects(ctx context.Context, input *s3.DeleteObjectsInput) (s3response.DeleteResult, error) {
 	// delete object already checks bucket
 	delResult, errs := []types.DeletedObject{}, []types.Error{}
 	for _, obj := range input.Delete.Objects {
+		// these keys come from the request body, not from the (validated)
+		// request path: a key with dot segments would be resolved outside
+		// the bucket when it is joined into a file system path
+		if hasDotSegment(getString(obj.Key)) {
+			invalid := s3err.GetAPIError(s3err.ErrInvalidURI)
+			errs = append(errs, types.Error{
+				Key:     obj.Key,
+				Code:    &invalid.Code,
+				Message: &invalid.Description,
+			})
+			continue
+		}
+
 		//TODO: Make the delete operation concurrent
 		res, err := p.DeleteObject(ctx, &s3.DeleteObjectInput{
 			Bucket:    input.Bucket,
